@@ -6,6 +6,8 @@ package gomodel
 
 import (
 	"reflect"
+	"sort"
+	"strings"
 
 	structform "github.com/elastic/go-structform"
 )
@@ -89,6 +91,67 @@ type FolderScalar struct{ X int }
 
 func (f FolderScalar) Fold(v structform.ExtVisitor) error { return v.OnInt64(int64(f.X) * 2) }
 
+// FTags is a named slice of a builtin element type that implements Folder
+// (value receiver): emits one string. The library has a fast path that converts
+// named slices/maps of builtin elements to their unnamed type; an implemented
+// folder must win over it wherever the value sits.
+type FTags []string
+
+func (f FTags) Fold(v structform.ExtVisitor) error { return v.OnString("tags:" + strings.Join(f, ",")) }
+
+// FCounts is a named map[string]int that implements Folder: emits
+// {"n": len, "sum": sum of values}.
+type FCounts map[string]int
+
+func (f FCounts) Fold(v structform.ExtVisitor) error {
+	var sum int64
+	for _, x := range f {
+		sum += int64(x)
+	}
+	if err := v.OnObjectStart(2, structform.AnyType); err != nil {
+		return err
+	}
+	if err := v.OnKey("n"); err != nil {
+		return err
+	}
+	if err := v.OnInt(len(f)); err != nil {
+		return err
+	}
+	if err := v.OnKey("sum"); err != nil {
+		return err
+	}
+	if err := v.OnInt64(sum); err != nil {
+		return err
+	}
+	return v.OnObjectFinished()
+}
+
+// FAnyMap is a named map[string]interface{} that implements Folder: emits the
+// sorted keys as an array of strings.
+type FAnyMap map[string]interface{}
+
+func (f FAnyMap) Fold(v structform.ExtVisitor) error {
+	keys := make([]string, 0, len(f))
+	for k := range f {
+		keys = append(keys, k)
+	}
+	sort.Strings(keys)
+	if err := v.OnArrayStart(len(keys), structform.StringType); err != nil {
+		return err
+	}
+	for _, k := range keys {
+		if err := v.OnString(k); err != nil {
+			return err
+		}
+	}
+	return v.OnArrayFinished()
+}
+
+// FAnyList is a named []interface{} that implements Folder: emits its length.
+type FAnyList []interface{}
+
+func (f FAnyList) Fold(v structform.ExtVisitor) error { return v.OnInt(len(f)) }
+
 // RegT is folded by a registered folder function (Folders option).
 type RegT struct{ X int }
 
@@ -169,6 +232,10 @@ var Pool = []PoolType{
 	{Name: "FolderPtr", Type: reflect.TypeOf(FolderPtr{}), FoldOnly: true},
 	{Name: "FolderScalar", Type: reflect.TypeOf(FolderScalar{}), FoldOnly: true},
 	{Name: "RegT", Type: reflect.TypeOf(RegT{}), FoldOnly: true},
+	{Name: "FTags", Type: reflect.TypeOf(FTags(nil)), FoldOnly: true},
+	{Name: "FCounts", Type: reflect.TypeOf(FCounts(nil)), FoldOnly: true},
+	{Name: "FAnyMap", Type: reflect.TypeOf(FAnyMap(nil)), FoldOnly: true},
+	{Name: "FAnyList", Type: reflect.TypeOf(FAnyList(nil)), FoldOnly: true},
 	{Name: "N", Type: reflect.TypeOf(N{}), Recursive: true},
 	{Name: "Tree", Type: reflect.TypeOf(Tree{}), Recursive: true},
 	{Name: "M", Type: reflect.TypeOf(M(nil)), Recursive: true},
